@@ -78,6 +78,12 @@ struct rank_api {
 	void (*gvt_msg_drain)(void);
 	bool (*sync_thread_barrier)(void);
 	void (*auto_ckpt_on_gvt)(void);
+	void (*auto_ckpt_init)(void);
+	void (*stats_global_init)(void);
+	void (*stats_init)(void);
+	void (*lp_global_init)(void);
+	void (*termination_global_init)(void);
+	void (*gvt_global_init)(void);
 	void (*mpi_remote_msg_handle)(void);
 	/* globals */
 	struct lp_ctx **lps;
